@@ -52,11 +52,21 @@ CLAIMED = {
         "Unbounded theorems against schoolbook arithmetic on coefficient lists over Z and Q: add, sub, neg, generic dictionary product, Kronecker product UIntDict::mul = schoolbook product for ALL integer polynomials (only the unsigned-int limits deg a + deg b < 2^32 and bit budget < 2^32 as hypotheses; fuel sufficiency and zero-polynomial cases included), pow incl. exponent 0, divides, eval, diff, degree/coefficient queries. Tied by comparing coefficient maps exactly on generated polynomials straddling the Kronecker threshold; from_basic/as_symbolic round trip by correspondence and oracle.",
         "Trusted: Coq kernel; extraction; GMP as external; hand transcription validated by correspondence; known finding (listed): exponent addition wraps modulo 2^32.",
         "7 (C21)"),
+    "C22": (
+        "Rocq proof over an executable model of msymenginepoly (UDictWrapper arithmetic, reconcile/translate over arbitrary generator sets, pow, eval, from_dict, __eq__, bit-exact __hash__) + exact correspondence of monomial dictionaries",
+        "Unbounded theorems for ALL pairs of generator sets (equal, overlapping, disjoint, empty) and all coefficients: reconcile returns the sorted union with correct index translators; translate preserves value; add, sub, neg are schoolbook; mul and pow (every exponent incl. 0, termination) are the schoolbook product/power with exponents modulo 2^32 as coded, and the mathematical ones under the no-wrap guard; eval is a ring homomorphism; __eq__ is an equivalence characterised exactly, and eq implies equal hash; from_dict normalises. Tied by exact comparison of sorted dictionaries on generated polynomials and by an independent reference in the driver.",
+        "Trusted: Coq kernel; extraction; hand transcription validated by correspondence; MExprPoly and as_symbolic/from_basic by driver oracle only; known finding (listed): exponents wrap modulo 2^32.",
+        "7 (C22)"),
     "C23": (
         "Rocq proof over an executable model of GaloisFieldDict (all operations incl. the division loops with checked indices, gcd, pow_mod, compose_mod, square-free and factorisation routines with explicit random streams) + exact correspondence of coefficient vectors",
         "Unbounded theorems for every prime p and all polynomials: constructors, +, -, *, negate, shifts, pow, pow_mod, monic, diff, eval, compose_mod are canonical and equal mod p to schoolbook arithmetic; division with remainder (f = q g + r, deg r < deg g, uniqueness, no out-of-range access, zero divisor throws); gcd terminates and is the monic greatest common divisor; lcm partial. Factorisation/square-free results are covered by exact correspondence (mirrored random streams) and by driver oracles (product, monic, brute-force/Rabin irreducibility) only, not by theorems.",
         "Trusted: Coq kernel; extraction; hand transcription validated by correspondence; known finding (listed): modulus >= 2^64 truncated in the Frobenius code.",
         "7 (C23)"),
+    "C24": (
+        "Rocq proof over an executable model of ~55 routines of dense_matrix.cpp (row-major vector with checked access, entries Fin Q | zoo | nan) incl. a self-contained determinant theory + exact entrywise correspondence + independent GMP oracle",
+        "Unbounded theorems (all sizes): entrywise specs of add, mul, transpose, submatrix, row/column operations, joins, deletes; substitution solvers; pivoted Gauss-Jordan is total, row-equivalent and in reduced row echelon form for any rank (rref unique); fraction-free variants; pivoted LU (L U = P A or rank-deficiency exception), pivoted solves and inverses (correct or exception, never out of bounds); det_bareis equals the cofactor determinant for every order; char_poly/Berkowitz for orders up to 4/5; unpivoted LU/LDL/fraction-free routines under the boolean guard 'no zero pivot met' with refutation witnesses. Tied by comparing every entry of model and library results on matrices up to 5x5 (6x6 thorough) of every case-split class; oracle multiplies back / compares with a reference elimination in GMP over Q(i).",
+        "Trusted: Coq kernel; extraction; hand transcription validated by correspondence; QR and Gaussian-rational entries are oracle-only; known findings (listed, 12 keys): unpivoted routines return zoo/nan on non-singular inputs with a vanishing leading minor.",
+        "7 (C24)"),
     "C25": (
         "Rocq proof over an executable model of CSRMatrix (p/j/x arrays with 32-bit indices and checked access: get, set, from_coo, sort/sum-duplicates, binop, transpose, conjugate, scale, diagonal, jacobian, matmat pass 1+2, is_canonical) + exact correspondence of the three arrays after every command",
         "Unbounded theorems for any element type with a zero test (rows*cols < 2^31): get returns the dense entry; set keeps canonical format and performs exactly the dense update; after EVERY history of in-range set/get operations every step succeeds and equals the dense mirror; from_coo sums duplicates and is canonical; binop (add, sub, elementwise product), transpose, conjugate, scale rows/columns, diagonal, jacobian, matrix product (canonical result equal to the dense product) agree with dense semantics; is_canonical decides canonical format exactly. Tied by comparing p_, j_, x_ exactly after every command of generated programs (exhaustive small universes included) and by an independent dense mirror in the driver.",
@@ -87,6 +97,11 @@ CLAIMED = {
         "Unbounded theorems (every history, every limit < 2^31, every sieve size 1..2^15 KB): no array access leaves its array, every loop terminates, generate_primes returns exactly the primes up to the limit in increasing order, iterators return the prime sequence without gaps or repeats. The model is tied to the code by running generated histories on the extracted model and on the library rebuilt from /repo and comparing every output.",
         "Trusted: Coq kernel; extraction (ExtrOcamlBasic); the hand transcription of prime_sieve.cpp into coq/C33/SieveModel.v, validated on every run by correspondence only (differential testing, not proof); floor(sqrt(double)) modelled as N.sqrt; valarray slice semantics; unbounded iterators (limit 0) are outside the theorems (Bertrand's postulate only proved below 2^31).",
         "7 (C33)"),
+    "C37": (
+        "Rocq-proved checker (check_cse sound for ALL outputs) run on every implementation output + executable models of tree_cse and opt_cse with theorems on the tree_cse part + exact correspondence",
+        "Theorems: whenever the extracted checker accepts (inputs, replacements, reduced), back-substitution last-to-first reproduces expressions equal to the inputs, every replacement symbol is fresh and pairwise distinct, and each replacement mentions only earlier symbols; for tree_cse itself: fresh increasing symbol names (whole cse()), freshness, acyclicity and faithfulness for every compositional semantics on well-formed inputs (guard excludes FunctionSymbols named add/mul/pow). opt_cse's regrouping is modelled and compared exactly but its faithfulness is validated per explored instance by the proved checker, not proved universally - the evidence says so.",
+        "Trusted: Coq kernel; extraction; arithmetic constructors as modelled by the C03/C04/C07 slice (explicit hypothesis 'constructors invent no symbols'); known findings (listed): FunctionSymbols named add/mul/pow are evaluated or crash; regrouping by opt_cse can change the canonical form.",
+        "7 (C37)"),
     "C38": (
         "Rocq proof (MathComp polynomials + stdlib refinement layer) over an executable model of generate_fdiff_weights_vector with its flat index layout and 32-bit index arithmetic + exact correspondence of weight vectors",
         "Unbounded theorem fornberg_exact: for every grid of distinct rationals of any size, any centre, any max_deriv (index space below 2^32), every derivative order k <= max_deriv and every polynomial of degree below the grid size, the weights applied to the polynomial's values give exactly its k-th derivative at the centre; plus the loop invariant (Lagrange-basis Taylor coefficients after every stage), in-bounds of every array access, partition of unity. Tied to the code by comparing weight vectors exactly (model vs library) on generated grids and by an exactness oracle on monomials evaluated by the driver in GMP arithmetic.",
